@@ -17,6 +17,7 @@ Absent == -99
 Symbolic == {"epoch", "today", "month", "year", "now"}
 
 \* ---- implementation level -------------------------------------------------
+\* @type: ({d: Int, s: Int, u: Int}, Str, Int) => {d: Int, s: Int, u: Int};
 ImplAst0(now, start, xk) ==
     LET pub == FloorSec(now)
         c   == CivilFromDays(now.d)
@@ -39,6 +40,7 @@ RoundHalfEven(num, den) ==
         r2 == 2 * (num - q * den)
     IN  IF r2 > den THEN q + 1 ELSE IF r2 < den THEN q ELSE (IF q % 2 = 0 THEN q ELSE q + 1)
 
+\* @type: ({d: Int, s: Int, u: Int}, Str, Int, Int, Int, Int, Int) => {ast: {d: Int, s: Int, u: Int}, publish: {d: Int, s: Int, u: Int}, tsbd: Int, mup: Int, fta: {s: Int, u: Int}, elapsed: {s: Int, u: Int}};
 Impl(now, start, xk, depth, mup, refSegDur, refTs) ==
     LET a0   == ImplAst0(now, start, xk)
         el0  == Diff(now, a0)
@@ -56,31 +58,41 @@ Impl(now, start, xk, depth, mup, refSegDur, refTs) ==
          fta |-> [s |-> el.s - tsbd, u |-> el.u], elapsed |-> el]
 
 \* ---- property level: clauses on an observation r = [ast, publish, tsbd, mup, fta] ---
+\* @type: ({d: Int, s: Int, u: Int}, {ast: {d: Int, s: Int, u: Int}, publish: {d: Int, s: Int, u: Int}, tsbd: Int, mup: Int, fta: {s: Int, u: Int}, elapsed: {s: Int, u: Int}}) => Bool;
 C08_AstNotFuture(now, r) == InstLe(r.ast, now)
+\* @type: ({d: Int, s: Int, u: Int}, {ast: {d: Int, s: Int, u: Int}, publish: {d: Int, s: Int, u: Int}, tsbd: Int, mup: Int, fta: {s: Int, u: Int}, elapsed: {s: Int, u: Int}}) => Bool;
 C08_PublishInRangeWholeSecond(now, r) ==
     InstLe(r.ast, r.publish) /\ InstLe(r.publish, now) /\ r.publish.u = 0
+\* @type: ({d: Int, s: Int, u: Int}, {ast: {d: Int, s: Int, u: Int}, publish: {d: Int, s: Int, u: Int}, tsbd: Int, mup: Int, fta: {s: Int, u: Int}, elapsed: {s: Int, u: Int}}) => Bool;
 C08_TsbdRange(now, r) == r.tsbd >= 0 /\ DurLe(Dur(r.tsbd, 0), Diff(now, r.ast))
+\* @type: ({d: Int, s: Int, u: Int}, {ast: {d: Int, s: Int, u: Int}, publish: {d: Int, s: Int, u: Int}, tsbd: Int, mup: Int, fta: {s: Int, u: Int}, elapsed: {s: Int, u: Int}}) => Bool;
 C08_FirstAvailable(now, r) ==
     LET el == Diff(now, r.ast) IN
     r.fta = [s |-> el.s - r.tsbd, u |-> el.u] /\ r.fta.s >= 0
 \* with a minimumUpdatePeriod p: publish = ast + k*p, lag < p + 1 s
+\* @type: ({d: Int, s: Int, u: Int}, {ast: {d: Int, s: Int, u: Int}, publish: {d: Int, s: Int, u: Int}, tsbd: Int, mup: Int, fta: {s: Int, u: Int}, elapsed: {s: Int, u: Int}}) => Bool;
 C08_PublishQuantised(now, r) ==
     r.mup > 0 =>
         LET off == Diff(r.publish, r.ast) IN
         /\ off.u = 0 /\ off.s >= 0 /\ off.s % r.mup = 0
         /\ DurLt(Diff(now, r.publish), Dur(r.mup + 1, 0))
+\* @type: ({d: Int, s: Int, u: Int}, Str, {ast: {d: Int, s: Int, u: Int}, publish: {d: Int, s: Int, u: Int}, tsbd: Int, mup: Int, fta: {s: Int, u: Int}, elapsed: {s: Int, u: Int}}) => Bool;
 C08_SymbolicAtLeastOneMinuteOld(now, start, r) ==
     start \in Symbolic => DurLe(Dur(60, 0), Diff(now, r.ast))
+\* @type: ({d: Int, s: Int, u: Int}, Str, {ast: {d: Int, s: Int, u: Int}, publish: {d: Int, s: Int, u: Int}, tsbd: Int, mup: Int, fta: {s: Int, u: Int}, elapsed: {s: Int, u: Int}}) => Bool;
 C08_NowFollowsAt60(now, start, r) ==
     start = "now" => r.ast = AddSec(FloorSec(now), -60)
 
 \* relational clauses over two observations with the same options, now1 <= now2
+\* @type: ({ast: {d: Int, s: Int, u: Int}, publish: {d: Int, s: Int, u: Int}, tsbd: Int, mup: Int, fta: {s: Int, u: Int}, elapsed: {s: Int, u: Int}}, {ast: {d: Int, s: Int, u: Int}, publish: {d: Int, s: Int, u: Int}, tsbd: Int, mup: Int, fta: {s: Int, u: Int}, elapsed: {s: Int, u: Int}}) => Bool;
 C08_PublishMonotone(r1, r2) == InstLe(r1.publish, r2.publish)
 \* epoch / today / month / year: one instant for all requests of a UTC day after its first minute
+\* @type: ({d: Int, s: Int, u: Int}, {d: Int, s: Int, u: Int}, Str, {ast: {d: Int, s: Int, u: Int}, publish: {d: Int, s: Int, u: Int}, tsbd: Int, mup: Int, fta: {s: Int, u: Int}, elapsed: {s: Int, u: Int}}, {ast: {d: Int, s: Int, u: Int}, publish: {d: Int, s: Int, u: Int}, tsbd: Int, mup: Int, fta: {s: Int, u: Int}, elapsed: {s: Int, u: Int}}) => Bool;
 C08_SymbolicStableWithinDay(now1, now2, start, r1, r2) ==
     (start \in {"epoch", "today", "month", "year"} /\ now1.d = now2.d /\ now1.s >= 60 /\ now2.s >= 60)
         => r1.ast = r2.ast
 
+\* @type: ({d: Int, s: Int, u: Int}, Str, {ast: {d: Int, s: Int, u: Int}, publish: {d: Int, s: Int, u: Int}, tsbd: Int, mup: Int, fta: {s: Int, u: Int}, elapsed: {s: Int, u: Int}}) => Bool;
 AllSingle(now, start, r) ==
     /\ C08_AstNotFuture(now, r)
     /\ C08_PublishInRangeWholeSecond(now, r)
